@@ -155,7 +155,17 @@ func C01(c *core.Ctx) {
 		c.Decide(stale == "", "R1.10", fmt.Sprintf("downstream-set-per-entry#%d", nMaps), c.Pos(mms[0]), "the set of downstream faces is allocated in the iteration that fills it", "processIncomingData fills a face set inside a loop (at "+stale+") that does not allocate it afresh: the faces of PIT entries handled earlier are still in it, so they receive the Data again (or one copy and one token serve several pending Interests)")
 	})
 	restoreR110()
-	c.Floor("R1.10", "face sets ranged over in processIncomingData", nMaps, 1)
+	// (a pipeline that ranges over the entry's own in-record map keeps no face set of its
+	// own: the map is per entry by construction — R1.16 decides whether it may)
+	nOwn := 0
+	core.InstrsDeep(pid, func(in ssa.Instruction) {
+		if rg, ok := in.(*ssa.Range); ok {
+			if cl, isC := core.Strip(rg.X).(*ssa.Call); isC && cl.Call.IsInvoke() && cl.Call.Method.Name() == "InRecords" {
+				nOwn++
+			}
+		}
+	})
+	c.Floor("R1.10", "face sets (or in-record maps) ranged over in processIncomingData", nMaps+nOwn, 1)
 
 	// ---- R1.1 who may call
 	n := 0
@@ -789,6 +799,75 @@ func C01(c *core.Ctx) {
 			c.Decide(sixOK, "R1.4", "token-format-gate", c.Pos(ci), "a token is used for matching only when the carried PIT token has this forwarder's 6-byte format", "a PIT token of foreign length is used for token matching (origins "+core.LeafSet(leaves)+")")
 		}
 	}
+	// ---- R1.16 the downstream set outlives the consumption. The in-records of a matched
+	// entry are cleared before the Data goes out (so that a repeated copy finds nobody):
+	// iterating the entry's own in-record map after ClearInRecords is right only while
+	// ClearInRecords installs a fresh map and leaves the old one to its holders. If
+	// ClearInRecords empties the map in place AND the pipeline ranges over InRecords()
+	// obtained before the clear, the loop finds nothing and nobody gets the Data.
+	if pid := c.Fn("R1.16", "fw/fw", "Thread", "processIncomingData"); pid != nil {
+		inPlace := ""
+		if pe := p.Named("fw/table", "PitEntry"); pe != nil {
+			for _, t := range p.Implementations(pe) {
+				for _, base := range []string{"ClearInRecords"} {
+					fn := p.MethodOf(t, base)
+					if fn == nil || fn.Blocks == nil {
+						continue
+					}
+					fresh, emptied := false, false
+					core.InstrsDeep(fn, func(in ssa.Instruction) {
+						if _, v, ok := storeToField(in, "", "inRecords"); ok {
+							if _, isMk := core.Strip(v).(*ssa.MakeMap); isMk {
+								fresh = true
+							}
+						}
+						if cl, ok := in.(*ssa.Call); ok {
+							if b, isB := cl.Call.Value.(*ssa.Builtin); isB && (b.Name() == "clear" || b.Name() == "delete") && len(cl.Call.Args) >= 1 {
+								if _, isF := core.FieldOf(cl.Call.Args[0], "inRecords"); isF {
+									emptied = true
+								}
+							}
+						}
+					})
+					if emptied && !fresh {
+						inPlace = core.FuncName(fn)
+					}
+				}
+			}
+		}
+		aliasUse := ""
+		nClear := 0
+		core.InstrsDeep(pid, func(in ssa.Instruction) {
+			ci, ok := in.(ssa.CallInstruction)
+			if !ok || !ci.Common().IsInvoke() || ci.Common().Method.Name() != "ClearInRecords" {
+				return
+			}
+			nClear++
+			entry := ci.Common().Value
+			// InRecords() of the same entry obtained before this call and used after it
+			core.Instrs(in.Parent(), func(in2 ssa.Instruction) {
+				c2, ok2 := in2.(*ssa.Call)
+				if !ok2 || !c2.Call.IsInvoke() || c2.Call.Method.Name() != "InRecords" || !(c2.Call.Value == entry || core.Same(c2.Call.Value, entry)) {
+					return
+				}
+				if !core.ReachableFrom(core.After(in2), in) {
+					return // obtained after the clear (a fresh look)
+				}
+				for _, u := range core.Refs(c2) {
+					switch u.(type) {
+					case *ssa.Range, *ssa.Lookup:
+						// … reachable from the clear without the map being obtained anew
+						if core.ReachInstrFrom(core.After(in), u, nil, func(x ssa.Instruction) bool { return x == ssa.Instruction(c2) }) != nil {
+							aliasUse = c.Pos(u)
+						}
+					}
+				}
+			})
+		})
+		c.Decide(inPlace == "" || aliasUse == "", "R1.16", "downstream-set-outlives-consumption", p.Pos(pid.Pos()), fmt.Sprintf("%d ClearInRecords calls; the in-record map read after a clear is a copy, or ClearInRecords installs a fresh map", nClear), "processIncomingData iterates (at "+aliasUse+") the in-record map it obtained before ClearInRecords, and "+inPlace+" empties that very map in place: the loop that sends the Data finds no downstream — a Data packet that matches several PIT entries is delivered to nobody")
+		c.Floor("R1.16", "ClearInRecords calls in the incoming Data pipeline", nClear, 1)
+	}
+
 }
 
 // isCallOn: v is a call of id whose receiver is recv.
